@@ -74,8 +74,9 @@ def run(rec, F):
                 a, b = d[2], d[3]
                 a_len = sem.desc_call_name(a) == "len" and sem.desc_mentions_field(a, "queue")
                 b_len = sem.desc_call_name(b) == "len" and sem.desc_mentions_field(b, "queue")
-                a_cap = sem.desc_mentions_field(a, "capacity") or sem.desc_call_name(a) == "capacity"
-                b_cap = sem.desc_mentions_field(b, "capacity") or sem.desc_call_name(b) == "capacity"
+                # the channel's own limit: the `capacity` field (or an accessor of self), not the ring's VecDeque::capacity()
+                a_cap = sem.desc_mentions_field(a, "capacity") or (sem.desc_call_name(a) == "capacity" and not sem.desc_mentions_field(a, "queue"))
+                b_cap = sem.desc_mentions_field(b, "capacity") or (sem.desc_call_name(b) == "capacity" and not sem.desc_mentions_field(b, "queue"))
                 if a_len and b_cap:
                     strict = (d[1] == "Lt" and outc is True) or (d[1] == "Ge" and outc is False)
                 elif a_cap and b_len:
@@ -513,3 +514,35 @@ def runnable_scan(rec, F):
     rec.inst(R, "find_runnable_waiter scans past dead entries", ok=ok, loc=fn.loc, note=why)
     if not ok:
         rec.finding(R, "F4.waiter-scan/find_runnable_waiter", "find_runnable_waiter can answer None while waiters remain in the list (%s): a completed fiber's stale entry at the head hides a live waiter behind it, which is never woken - the program reports a deadlock although a fiber could run" % why, loc=fn.loc, fn=fn.path)
+
+
+def waiter_registration(rec, F):
+    """A fiber that is told to wait (send: Full/FullBlock, receive: Empty/EmptyBlock) is found again only through the
+    queue's waiter list: the result is built only after the waiter was appended to it, whatever the waiter's own state."""
+    R = rec.rule("F4.chan-register", "ChannelQueue::send returns Full/FullBlock only after send_waiters.push_back(waiter), ChannelQueue::receive returns Empty/EmptyBlock only after receive_waiters.push_back(waiter): the append dominates the construction of the result (it is not conditional on a flag of the waiter), otherwise the parked fiber is invisible to the operation that should wake it")
+    n = 0
+    for fname, field, variants, res in (("send", "send_waiters", ("Full", "FullBlock"), "SendResult"), ("receive", "receive_waiters", ("Empty", "EmptyBlock"), "ReceiveResult")):
+        fn = q(F, fname)
+        if fn is None:
+            rec.anchor_lost("F4.chan-register", "ChannelQueue::" + fname)
+            continue
+        pushes = set()
+        for bi, t in fn.calls():
+            if lastseg(t["f"]) == "push_back" and t["args"] and sem.desc_mentions_field(sem.desc_operand(fn, t["args"][0]), field):
+                # the value appended is the waiter argument
+                r = fn.root_of(t["args"][1]) if len(t["args"]) > 1 else ("?",)
+                if r[0] == "arg" and r[1] == 2:
+                    pushes.add(bi)
+        for bi, si, st in fn.stmts():
+            r = st["r"]
+            if r["k"] != "agg" or not any(r["adt"].endswith("::%s::%s" % (res, v)) for v in variants):
+                continue
+            if bi not in fn.reachable:
+                continue
+            n += 1
+            var = lastseg(r["adt"])
+            ok = any(p in fn.dom.get(bi, ()) or p == bi for p in pushes)
+            rec.inst(R, "%s: %s after %s.push_back(waiter)" % (fname, var, field), ok=ok, loc=fn.loc)
+            if not ok:
+                rec.finding(R, "F4.chan-register/%s/%s" % (fname, var), "ChannelQueue::%s can return %s without having appended the waiter to %s on that path (the append is missing or conditional): the fiber parks and nothing that later touches this channel can find it (lost wake-up, reported as a deadlock)" % (fname, var, field), loc=fn.loc, fn=fn.path)
+    rec.floor(R, "waiting results examined", n, 4)
